@@ -294,6 +294,10 @@ impl BroCatli {
                 self.any_bytes_emitted = true;
                 index -= 8;
                 self.last_bytes_len -= 1;
+            } else {
+                // the marker may have straddled the two bytes: what is left of the tail now
+                // lives in last_bytes[0] alone and the emptied second byte must not be counted
+                self.last_bytes_len = 1;
             }
             self.last_byte_bit_offset = index;
             assert!(index < 8);
